@@ -724,4 +724,20 @@ def rowSums [Add α] [Zero α] (n1 : Nat) (x : V α) : V α := fun i => sumTo n1
 def colSums [Add α] [Zero α] (n0 n1 : Nat) (x : V α) : V α := fun j => sumTo n0 (fun i => x (i * n1 + j))
 end RowCol
 
+
+/-! ## 3-D X-ray projector: the 1-d factor of the voxel footprint (`XRayTransform3D._calc_weights`) -/
+
+section X3
+variable {α : Type} [Add α] [Sub α] [Min α]
+
+/-- share of a footprint of width `w` (left edge `le`, in detector-bin units) that falls into its first bin
+    `floor(le)`, AS CODED: `to_next = minimum(ceil(left_edge) − left_edge, w)` (`cl` = ceil) -/
+def x3ToNextCoded (cl : α → Int) (ofInt : Int → α) (w le : α) : α := min (ofInt (cl le) - le) w
+
+/-- the DOCUMENTED share: distance from the left edge to the next bin edge, `floor(le) + 1 − le ∈ (0, 1]`, capped
+    by the width (the form `XRayTransform2D` uses: `1 − (Px − floor(Px))`) -/
+def x3ToNextDoc (fl : α → Int) (ofInt : Int → α) (one w le : α) : α := min (ofInt (fl le) + one - le) w
+
+end X3
+
 end Scico.LinOps
